@@ -744,7 +744,7 @@ def _callback_runner(ctx):
     """The coroutine that ``callback()`` registers to run a plain callback as an exit: the
     first argument of the outer ``partial(...)`` (a method of the stack or a module function)."""
     from .common import inline_locals
-    m = ctx.unit("contextlib.ExitStack.callback")
+    m = ctx.inlined(ctx.unit("contextlib.ExitStack.callback"))
     mcfg = cfg_of(m)
     for r in mcfg.nodes:
         if r.kind == "call" and not r.tag and isinstance(r.ast.func, ast.Attribute) \
@@ -761,7 +761,7 @@ def _callback_runner(ctx):
 def _callback_closure(ctx):
     """Second accepted form: ``callback()`` registers a coroutine function defined inside it
     (a closure over the callback and its arguments).  -> (nested unit, registering call node)"""
-    m = ctx.unit("contextlib.ExitStack.callback")
+    m = ctx.inlined(ctx.unit("contextlib.ExitStack.callback"))
     mcfg = cfg_of(m)
     for r in mcfg.nodes:
         if r.kind == "call" and not r.tag and isinstance(r.ast.func, ast.Attribute) \
@@ -776,7 +776,7 @@ def _callback_closure(ctx):
 def _r14_5_closure(ctx, u, reg) -> None:
     from .common import inline_locals
     from .lru import enumerate_paths
-    m = ctx.unit("contextlib.ExitStack.callback")
+    m = ctx.inlined(ctx.unit("contextlib.ExitStack.callback"))
     mcfg = cfg_of(m)
     cbp = m.param_names()[1]
     va = m.node.args.vararg.arg if m.node.args.vararg else None
@@ -821,7 +821,7 @@ def _callback_factory(ctx):
     private plain function of the library that returns a coroutine function defined inside it.
     -> (factory unit, nested coroutine unit, registering node, argument expression)"""
     from .common import inline_locals
-    m = ctx.unit("contextlib.ExitStack.callback")
+    m = ctx.inlined(ctx.unit("contextlib.ExitStack.callback"))
     mcfg = cfg_of(m)
     for r in mcfg.nodes:
         if r.kind == "call" and not r.tag and isinstance(r.ast.func, ast.Attribute) \
@@ -874,7 +874,7 @@ def _binds_callback(ctx, m, inner, cbp, va, kw) -> bool:
 def _r14_5_factory(ctx, factory, w, reg, arg, fparam) -> None:
     from .common import inline_locals
     from .lru import enumerate_paths
-    m = ctx.unit("contextlib.ExitStack.callback")
+    m = ctx.inlined(ctx.unit("contextlib.ExitStack.callback"))
     mcfg = cfg_of(m)
     regs = [n for n in mcfg.nodes if n.kind == "call" and not n.tag and isinstance(n.ast.func, ast.Attribute)
             and _is_stack(m, n.ast.func.value) and n.ast.args]
@@ -942,7 +942,7 @@ def r14_5(ctx) -> None:
         ctx.check(isinstance(val, ast.Constant) and val.value is False, "R14.5", u, rets[-1] if rets else u.node.name,
                   "a callback can never suppress: constant False is returned")
     runner_name = u.node.name
-    m = ctx.unit("contextlib.ExitStack.callback")
+    m = ctx.inlined(ctx.unit("contextlib.ExitStack.callback"))
     mcfg = cfg_of(m)
     cbp = m.param_names()[1]
     va = m.node.args.vararg.arg if m.node.args.vararg else None
